@@ -152,9 +152,11 @@ def _run_config(prop, cfg, tag, simulate=None):
         if any(key[:n] in bad_prefix for n in range(2, len(key) + 1)):
             continue   # judged from the recorded trace instead
         pre = expect[key[:-1]][2] if len(key) > 1 and key[:-1] in expect else None
+        feat = _change_features({"pre_state": pre, "real_state": st, "call": cfg.calls[key[-1] - 1]}) \
+            if pre is not None and len(key) > 1 else {}
         for pred in v:
             if pred.startswith(tuple(preds)):
-                cands.append((pred, key, outs, "model+replay", pre))
+                cands.append((pred, key, outs, "model+replay", pre, feat))
     drift = 0
     tv_states = 0
     traces_checked = 0
@@ -183,7 +185,9 @@ def _run_config(prop, cfg, tag, simulate=None):
                     tr = traces[r["t"] - 1]
                     outs = tuple(s["out"] for s in tr["steps"][:r["l"]])
                     pre = tr["steps"][r["l"] - 2]["post"] if r["l"] >= 2 else tr["init"]
-                    cands.append((pred, key, outs, "trace", pre))
+                    feat = _change_features({"pre_state": pre, "real_state": tr["steps"][r["l"] - 1]["post"],
+                                             "call": cfg.calls[key[-1] - 1]})
+                    cands.append((pred, key, outs, "trace", pre, feat))
     res.tail = res.tail[-20:]
     if ham_res is not None:
         res.distinct += ham_res.distinct
